@@ -71,7 +71,8 @@ def main():
                 if confirmed:
                     env = dict(os.environ, LOMOND_REPO=w)
                     t0 = time.time()
-                    rcc, oc = sh(f"{PY} check.py {pid} quick", cwd=vseed, env=env, timeout=3000)
+                    # (rc 124: the check did not end within 25 minutes -- it hangs on this change)
+                    rcc, oc = sh(f"timeout -k 10 1500 {PY} check.py {pid} quick", cwd=vseed, env=env, timeout=3000)
                     lines = [l for l in oc.splitlines() if re.match(r"^(VIOLATION|OK|KNOWN)", l)]
                     res.update(check_rc=rcc, check_lines=lines[:3], check_wall=round(time.time() - t0, 1))
                     # keep the replay's headline
